@@ -9,7 +9,7 @@ use crate::engine::{self, Built};
 use crate::gen::{self, RandCfg};
 use fancy_regex::{Expr, Regex};
 
-pub const VARIANTS: [&str; 12] = [
+pub const VARIANTS: [&str; 13] = [
     "x-mode, one space between tokens, spaced braces",
     "x-mode, mixed whitespace and # comments",
     "(?#..) comments between tokens",
@@ -22,6 +22,7 @@ pub const VARIANTS: [&str; 12] = [
     "\\x{H} literals + (?#) comments + \\A \\z",
     "hash-chosen mixture",
     "top-level scoped flag group (?on:X) as (?on)X(?-on)",
+    "(?-m:^) (?-m:$) as \\A \\z (under every flag setting)",
 ];
 
 pub struct Respell {
@@ -65,6 +66,7 @@ pub fn respell(n: &Node, variant: usize) -> String {
         7 => n.to_pattern_with(&PrintOpts { poss_as_atomic: true, anchors_az: az, raw_newline: true, short_escapes: true, ..Default::default() }),
         8 => n.to_pattern_with(&PrintOpts { flags_inline: true, ..Default::default() }),
         9 => join(&n.tokens(&PrintOpts { lit_style: 2, anchors_az: az, ..Default::default() }), |i| if i % 3 == 0 { "(?#q)" } else { "" }),
+        12 => n.to_pattern_with(&PrintOpts { anchors_az: true, ..Default::default() }),
         11 => {
             // only meaningful when nothing else sets flags around the toggled groups
             let nested = n.any(|x| matches!(x, Flags(_, _, c) if c.any(|y| matches!(y, Flags(..) | SetFlags(..) | AnyNl | Assert(A::StartLine) | Assert(A::EndLine))))) || n.any(|x| matches!(x, SetFlags(..)));
@@ -127,7 +129,8 @@ impl PatProp for Respell {
             return Prep::Excluded("F5:inline_flag_inside_non_flag_group");
         }
         let _ = known_class;
-        let base = n.to_pattern();
+        // variant 12 compares two respellings: `(?-m:^)` / `(?-m:$)` against `\A` / `\z`
+        let base = if self.variant == 12 { n.to_pattern_with(&PrintOpts { anchors_negm: true, ..Default::default() }) } else { n.to_pattern() };
         let a = match engine::build(&base) {
             Built::Ok(r) => r,
             Built::Err(_) => return Prep::Skip("compile:base-error"),
@@ -243,6 +246,8 @@ fn flag_bases() -> Vec<Node> {
     let mut out = vec![];
     let mut cfg = gen::common_cfg();
     cfg.leaves = vec![Lit('a'), Lit('B'), Lit('é'), Any, Class(false, vec![('a', 'b')]), Assert(A::StartText), Assert(A::EndText), Lit('\n'), AnyNl, Assert(A::StartLine), Assert(A::EndLine)];
+    cfg.unary.push(|c| if c.repeatable() { Some(Repeat(Box::new(c), 0, None, Q::Poss)) } else { None });
+    cfg.unary.push(|c| if c.repeatable() { Some(Repeat(Box::new(c), 1, Some(2), Q::Poss)) } else { None });
     for b in space(&cfg, 3, false) {
         for (on, off) in [("i", ""), ("s", ""), ("m", ""), ("U", ""), ("is", "m"), ("", "i"), ("is", ""), ("ism", ""), ("sU", ""), ("i", "sm"), ("", "is")] {
             out.push(Flags(on.into(), off.into(), Box::new(b.clone())));
@@ -256,7 +261,7 @@ fn flag_bases() -> Vec<Node> {
 
 pub fn run(ctx: &RunCtx) -> Outcome {
     let mut o = Outcome::default();
-    o.rule = format!("every pattern of the C01 space (exhaustive trees over the core and unicode leaf sets, context x filler products, proptest random ASTs) and flag-group variants, respelled by {} transformers applied to all tokens of the pattern: free-spacing (?x) with spaces / newlines / tabs / # comments and spaced {{ n , m }}, (?#..) comments, \\xHH \\x{{H}} \\uHHHH \\UHHHHHHHH literals, named groups in both syntaxes with \\k<n> / (?P=n), relative \\k<-n>, possessive as atomic group, ^ $ as \\A \\z, raw newline, scoped flag groups as inline flags in a non-capturing group, and a hash-chosen mixture. Oracle: Expr::parse_tree of both spellings gives equal trees and captures_from_pos is equal on every text and offset. Plus the round trip harness AST -> printer -> crate parser -> conversion == normalised harness AST. Non-trivial = the spelling differs and the text matches. Distinct = distinct (respelled pattern, text, offset).", VARIANTS.len());
+    o.rule = format!("every pattern of the C01 space (exhaustive trees over the core and unicode leaf sets, context x filler products, proptest random ASTs) and flag-group variants, respelled by {} transformers applied to all tokens of the pattern: free-spacing (?x) with spaces / newlines / tabs / # comments and spaced {{ n , m }}, (?#..) comments, \\xHH \\x{{H}} \\uHHHH \\UHHHHHHHH literals, named groups in both syntaxes with \\k<n> / (?P=n), relative \\k<-n>, possessive as atomic group, ^ $ as \\A \\z, raw newline, scoped flag groups as inline flags in a non-capturing group, (?-m:^) (?-m:$) against \\A \\z, and a hash-chosen mixture; plus 24 pairs of bracketed classes with \\h \\H \\e \\xHH items against their documented expansions in seven hosts. Oracle: Expr::parse_tree of both spellings gives equal trees and captures_from_pos is equal on every text and offset. Plus the round trip harness AST -> printer -> crate parser -> conversion == normalised harness AST. Non-trivial = the spelling differs and the text matches. Distinct = distinct (respelled pattern, text, offset).", VARIANTS.len());
     o.assumptions = vec!["metamorphic: the default spelling printed by the harness is the base".into()];
     o.required_classes = vec!["spelling:changed".into(), "roundtrip:ok".into()];
     let quick = ctx.quick();
@@ -297,6 +302,11 @@ pub fn run(ctx: &RunCtx) -> Outcome {
             return o;
         }
     }
+    // escapes inside bracketed classes against their documented expansions
+    if let Some(v) = class_pairs(&mut o.stats) {
+        o.violations.push(v);
+        return o;
+    }
     o.exhaustive = Some(format!("{} respellings of every valid tree with <= {} nodes over the core and unicode leaf sets, of the depth-1 products and of the flag-group variants", VARIANTS.len(), n));
     let cases = if quick { 20_000 } else { 300_000 };
     let rtexts = gen::texts(&['a', 'b', 'é', '\n'], 3);
@@ -309,7 +319,76 @@ pub fn run(ctx: &RunCtx) -> Outcome {
     o
 }
 
+const CLASS_PAIRS: &[(&str, &str)] = &[
+    ("[\\H]", "[^0-9A-Fa-f]"), ("[\\h]", "[0-9A-Fa-f]"), ("[_\\H]", "[_[^0-9A-Fa-f]]"), ("[\\d\\H]", "[\\d[^0-9A-Fa-f]]"), ("[^\\H]", "[^[^0-9A-Fa-f]]"), ("[^_\\H]", "[^_[^0-9A-Fa-f]]"),
+    ("[\\H&&[a-z]]", "[[^0-9A-Fa-f]&&[a-z]]"), ("[a-z&&\\H]", "[a-z&&[^0-9A-Fa-f]]"), ("[\\h_]", "[[0-9A-Fa-f]_]"), ("[_\\h]", "[_[0-9A-Fa-f]]"), ("[^\\h]", "[^[0-9A-Fa-f]]"), ("[^\\h_]", "[^[0-9A-Fa-f]_]"),
+    ("[\\h&&[^a]]", "[[0-9A-Fa-f]&&[^a]]"), ("[g-z&&[^\\h]]", "[g-z&&[^[0-9A-Fa-f]]]"), ("[\\h\\H]", "[[0-9A-Fa-f][^0-9A-Fa-f]]"), ("[\\H-]", "[[^0-9A-Fa-f]-]"), ("[-\\H]", "[-[^0-9A-Fa-f]]"), ("[\\^\\H]", "[\\^[^0-9A-Fa-f]]"),
+    ("[x\\e]", "[x\\x1B]"), ("[\\e-z]", "[\\x1B-z]"), ("[\\n\\H]", "[\\x0A[^0-9A-Fa-f]]"), ("[\\x41\\H]", "[A[^0-9A-Fa-f]]"), ("[\\w&&\\H]", "[\\w&&[^0-9A-Fa-f]]"), ("[[:alpha:]&&\\H]", "[[:alpha:]&&[^0-9A-Fa-f]]"),
+];
+
+const CLASS_HOSTS: &[(&str, &str)] = &[("", ""), ("(?=)", ""), ("", "+\\b"), ("(?i:", ")"), ("(?<=", ")."), ("(", ")\\1"), ("(?x: ", " )")];
+
+fn check_class_pair(a: &str, b: &str, host: (&str, &str), texts: &[String]) -> Result<u64, (String, Fail)> {
+    let pa = format!("{}{}{}", host.0, a, host.1);
+    let pb = format!("{}{}{}", host.0, b, host.1);
+    let (ra, rb) = match (engine::build(&pa), engine::build(&pb)) {
+        (Built::Ok(x), Built::Ok(y)) => (x, y),
+        (Built::Err(_), Built::Err(_)) => return Ok(0),
+        (x, y) => {
+            let show = |b: &Built| match b {
+                Built::Ok(_) => "Ok".to_string(),
+                Built::Err(e) => format!("Err({})", engine::err_kind(e)),
+                Built::Panic(p) => format!("PANIC({})", p),
+            };
+            return Err((String::new(), Fail::new("class-spelling-compiles", format!("{:?}: {}", pb, show(&y)), format!("{:?}: {}", pa, show(&x)))));
+        }
+    };
+    let mut n = 0;
+    for t in texts {
+        for pos in engine::char_offsets(t) {
+            let x = engine::captures_from_pos(&ra, t, pos);
+            let y = engine::captures_from_pos(&rb, t, pos);
+            if x != y {
+                return Err((t.clone(), Fail::new("class-spelling-differs", format!("{:?}: {}", pb, y.show()), format!("{:?} from {}: {}", pa, pos, x.show()))));
+            }
+            if matches!(x, engine::Out::Val(Some(_))) {
+                n += 1;
+            }
+        }
+    }
+    Ok(n)
+}
+
+fn class_texts() -> Vec<String> {
+    gen::texts(&['a', 'g', 'G', 'F', '0', '_', '^', '-', '\u{1b}', '\n', 'é'], 2)
+}
+
+/// `\h`, `\H`, `\e`, `\xHH` as items of a bracketed class against the documented expansions, in seven hosts
+fn class_pairs(st: &mut Stats) -> Option<Violation> {
+    let texts = class_texts();
+    for (a, b) in CLASS_PAIRS {
+        for host in CLASS_HOSTS {
+            st.evaluations += texts.len() as u64 * 2;
+            match check_class_pair(a, b, *host, &texts) {
+                Ok(n) => {
+                    st.class("class-item-spelling:pair-host");
+                    st.nontrivial_add(hash64(&(a, host)), n.min(u32::MAX as u64) as u32);
+                }
+                Err((t, fail)) => return Some(Violation { case: serde_json::json!({"class_pair": [a, b], "host": [host.0, host.1], "text": t}), fail }),
+            }
+        }
+    }
+    None
+}
+
 pub fn replay(ctx: &RunCtx, case: &serde_json::Value) -> Result<Option<Fail>, String> {
+    if let Some(pair) = case.get("class_pair").and_then(|x| x.as_array()) {
+        let a = pair.first().and_then(|x| x.as_str()).ok_or("no pair")?;
+        let b = pair.get(1).and_then(|x| x.as_str()).ok_or("no pair")?;
+        let h = case.get("host").and_then(|x| x.as_array()).ok_or("no host")?;
+        let host = (h.first().and_then(|x| x.as_str()).unwrap_or(""), h.get(1).and_then(|x| x.as_str()).unwrap_or(""));
+        return Ok(check_class_pair(a, b, host, &class_texts()).err().map(|(_, f)| f));
+    }
     match case.get("extra").and_then(|e| e.get("variant")).and_then(|v| v.as_u64()) {
         Some(v) => replay_pat(ctx, &Respell { variant: v as usize }, case),
         None => {
